@@ -290,6 +290,78 @@ func forgedMultiOffenders(rng *rand.Rand) []*Target {
 			}
 		}
 	}
+	if !skip["crl-entry-vary"] {
+		out = append(out, forgedCRLEntryVariants(c)...)
+	}
+	return out
+}
+
+// forgedCRLEntryVariants: a revoked entry that carries an ENUMERATED (reasonCode) repeated with other serial numbers and every
+// other reason code class next to it - several different offenders in one list.
+func forgedCRLEntryVariants(c *corpus.Corpus) []*Target {
+	var out []*Target
+	for _, o := range c.CRLs {
+		root, err := forge.Parse(o.DER)
+		if err != nil || len(root.Children) != 3 {
+			continue
+		}
+		forge.Expand(root)
+		tbs := root.Children[0]
+		var list *forge.Node
+		for i, ch := range tbs.Children {
+			if i >= 3 && ch.Tag() == 0x30 && len(ch.Children) > 0 && ch.Children[0].Tag() == 0x30 && len(ch.Children[0].Children) >= 2 && ch.Children[0].Children[0].Tag() == 0x02 {
+				list = ch
+			}
+		}
+		if list == nil {
+			continue
+		}
+		var enumPath func(n *forge.Node) *forge.Node
+		enumPath = func(n *forge.Node) *forge.Node {
+			if n.Tag() == 0x0a && n.Children == nil {
+				return n
+			}
+			for _, ch := range n.Children {
+				if r := enumPath(ch); r != nil {
+					return r
+				}
+			}
+			return nil
+		}
+		var entry *forge.Node
+		for _, e := range list.Children {
+			if enumPath(e) != nil {
+				entry = e
+				break
+			}
+		}
+		if entry == nil {
+			continue
+		}
+		for vi, codes := range [][]byte{{0, 7}, {7, 0}, {0, 11, 7}, {1, 0, 255}, {10, 9, 8, 7}} {
+			m := root.Clone()
+			mt := m.Children[0]
+			var ml *forge.Node
+			for i, ch := range mt.Children {
+				if i >= 3 && ch.Tag() == 0x30 && len(ch.Children) > 0 && ch.Children[0].Tag() == 0x30 && len(ch.Children[0].Children) >= 2 && ch.Children[0].Children[0].Tag() == 0x02 {
+					ml = ch
+				}
+			}
+			for k, code := range codes {
+				e2 := entry.Clone()
+				if en := enumPath(e2); en != nil {
+					en.Content = []byte{code}
+				}
+				ser := e2.Children[0]
+				ser.Content = append([]byte{0x11, byte(vi), byte(k)}, ser.Content...)
+				ml.Children = append(ml.Children, e2)
+			}
+			der := m.Bytes()
+			if crl, ok, _ := corpus.ParseCRL(der); ok {
+				out = append(out, &Target{Kind: "crl", ID: fmt.Sprintf("forged:crl-entry-vary%d:%s", vi, o.ID), DER: der, CRL: crl})
+			}
+		}
+	}
 	return out
 }
 
